@@ -675,6 +675,15 @@ func (u *Units) call(fn *ssa.Function, ins ssa.Instruction, cc *ssa.CallCommon, 
 			u.accSet(f.Params[1], uAbs)
 		}
 	}
+	// the state section is written and read block by block: inside readState the index handed to
+	// the callback of the stream's ReadRange is the block number
+	if name == "(*iostream.Reader).ReadRange" && len(cc.Args) == 2 && fnName(originOf(topFn(fn))) == "(*column.Collection).readState" {
+		if f := asFunc(cc.Args[1]); f != nil {
+			if par := cbParam(originOf(f), 0); par != nil {
+				u.accSet(par, uChunk)
+			}
+		}
+	}
 	// callbacks of bitmap iteration take the granularity of the receiver
 	if methodOn(cc, "github.com/kelindar/bitmap", "Bitmap", "Range", "Filter") && len(cc.Args) == 2 {
 		var ek ukind
@@ -687,11 +696,11 @@ func (u *Units) call(fn *ssa.Function, ins ssa.Instruction, cc *ssa.CallCommon, 
 			ek = uChunk
 		}
 		if ek != uBot {
-			switch f := cc.Args[1].(type) {
-			case *ssa.MakeClosure:
-				u.accSet(f.Fn.(*ssa.Function).Params[0], ek)
-			case *ssa.Function:
-				u.accSet(f.Params[0], ek)
+			// a literal, a named function or a method value (txn.deleteAt, filter.match)
+			if f := asFunc(cc.Args[1]); f != nil {
+				if par := cbParam(originOf(f), 0); par != nil {
+					u.accSet(par, ek)
+				}
 			}
 		}
 		if check && ek == uBot {
